@@ -1655,6 +1655,13 @@ class Frame(object):
                         return Const(sum(len(i[1]) for i in its))
                 if isinstance(a, ListV):
                     return Const(len(a.elems))
+                lcls = a.cls if isinstance(a, (Sym, Obj)) else None
+                lfi = lcls.find_method('__len__') if lcls is not None else None
+                if lfi is not None and self.sc.inline is not None and self.sc.inline(lfi):
+                    # len(x) on an object of a known class is x.__len__() (only under an explicit inlining policy)
+                    r = self._maybe_inline(lfi, a, [], {}, st, node)
+                    if r is not None:
+                        return r
                 return Sym('len(%s)' % render(a))
             if n in ('int', 'bool', 'str') and len(args) == 1 and isinstance(args[0], Const) and \
                     not isinstance(args[0].value, Enum):
